@@ -124,6 +124,10 @@ def quota_parse(R, kind, ino):
 # reader-based facts
 # ----------------------------------------------------------------------------------------------------------------------
 def _reader(path):
+    # The observers here read checksums, owners and quota files; the reader's verification that every name of an htree leaf
+    # hashes into the leaf's range (half_md4 / tea in python, a third of the run time on the catalogue directories) is not
+    # part of them: switched off for this process only (a hash of None means "not verified" to the reader).
+    ext4read.dirhash = lambda version, name, seed=None: None
     R = ext4read.Reader(path, 0)
     P = R.project()
     return R, P
